@@ -76,6 +76,10 @@ func (h *harness) historyWorker(n, steps int) {
 			h.rep.Fail("property", "reload:observer-panic-kills-process",
 				"an observer that panics in ApplyConfig terminated the whole process (reload is supposed to recover it): "+firstLineWith(output, "panic:"), replay)
 			skip = "panics" // go on without panicking observers
+		case (strings.Contains(output, "concurrent map") || strings.Contains(output, "DATA RACE")) && strings.Contains(output, "obsTarget).ApplyConfig"):
+			h.rep.Fail("property", "reload:observers-called-concurrently",
+				"one observer target was inside ApplyConfig on several goroutines at once (the runtime aborted the process): "+firstLineWith(output, "concurrent map")+firstLineWith(output, "DATA RACE"), replay)
+			skip += " reentrant"
 		case strings.Contains(output, "concurrent map") || strings.Contains(output, "DATA RACE"):
 			h.rep.Fail("property", "FileConfig.m:concurrent-map-access", "the history worker was aborted by the runtime: "+firstLineWith(output, "concurrent map")+firstLineWith(output, "DATA RACE"), replay)
 			skip += " reentrant"
